@@ -34,22 +34,24 @@ Outcomes(sw, A) ==
   IF ~sw.ok THEN {"unstable"}
   ELSE (IF Conv(sw, A, 1) THEN {"conv"} ELSE {}) \cup (IF ~Conv(sw, A, -1) THEN {"not"} ELSE {})
 
-\* is there a choice of outcomes under which the abstract machine performs exactly these sweeps and ends in
-\* control state `final` ?  Only the outcome "not" lets the machine go on, so every sweep but the last must admit
-\* "not" (and leave the machine running), and the last one must admit an outcome that leads to `final`.
+\* Is the recorded run a behaviour of Solver.tla ending in control state `final`?  The classification of a sweep by the
+\* exact stopping rule (numpy.allclose with the REQUESTED tolerances) decides what may be handed back:
+\*   returned : the last sweep meets the requested tolerance (never an earlier, intermediate iterate) within the sweep
+\*              budget, and every earlier sweep was performed.  An implementation is free to be stricter than asked and
+\*              go on after a sweep that already met the tolerance: that the code returns at the FIRST such sweep is
+\*              recorded as note.C03.ReturnedAtFirstConverged, not judged.
+\*   noconv   : the budget was used up: maxiter sweeps, or the one further sweep the loop guard `iters <= maxiter` performs
+\*              (DESIGN 9.2).  Whether it should have returned instead is judged across runs (C03.MaxIter.Enough): the
+\*              run with an unlimited budget shows how many sweeps the implementation's own criterion needs.
+\*   unstable : the sweep that raised is the last one.
 \* (Stated without recursion: TLC evaluates a recursion of depth n over the sweeps in quadratic time, and a run
 \* that does not converge has maxiter + 1 = 10 001 sweeps.)
-\* A run that RETURNED may have gone on after a sweep that already met the requested tolerance (an implementation is
-\* free to be stricter than asked; the statement of C03 forbids returning EARLY - an intermediate iterate - not late):
-\* its earlier sweeps need only have been performed.  That they were in fact all unconverged is recorded as
-\* note.C03.ReturnedAtFirstConverged (evidence, never a verdict).
 Explains(sws, A, j0, final) ==
   LET n == Len(sws) IN
-  /\ n >= 1
-  /\ \A j \in 1..(n - 1) :
-        /\ sws[j].ok
-        /\ final # "returned" => ("not" \in Outcomes(sws[j], A) /\ Sol!PcStep(j - 1, "not", A.maxiter) = "run")
-  /\ \E o \in Outcomes(sws[n], A) : Sol!PcStep(n - 1, o, A.maxiter) = final
+  /\ \A j \in 1..(n - 1) : sws[j].ok
+  /\ IF final = "returned" THEN n >= 1 /\ n <= A.maxiter /\ "conv" \in Outcomes(sws[n], A)
+     ELSE IF final = "noconv" THEN n \in {A.maxiter, A.maxiter + 1} /\ (n >= 1 => sws[n].ok)
+     ELSE n >= 1 /\ ~sws[n].ok /\ n <= A.maxiter + 1
 AtFirstConverged(sws, A) == \A j \in 1..(Len(sws) - 1) : "not" \in Outcomes(sws[j], A)
 
 Final(c) == IF c.end.kind = "return" THEN "returned"
@@ -62,17 +64,21 @@ CaseClauses(c) ==
       n   == Len(sws)
       fin == \A j \in DOMAIN sws : AllNum(sws[j].v0) /\ AllNum(sws[j].i0)
                                    /\ (sws[j].ok => AllNum(sws[j].v1) /\ AllNum(sws[j].i1))
-      last == sws[n]
+      last == sws[IF n >= 1 THEN n ELSE 1]
   IN
   << Cl("C03.NoNaN", TRUE, fin),
      Cl("C03.ExcClass", c.end.kind = "raise", c.end.exc \in {"RuntimeError", "ValueError"}),
-     Cl("C03.Terminates", TRUE, n <= A.maxiter + 1 /\ n >= 1),
+     Cl("C03.Terminates", TRUE, n <= A.maxiter + 1),
      \* the recorded sweeps, classified by the exact stopping rule, are a behaviour of Solver.tla
      \* ending in the observed way: not earlier, not an intermediate iterate; a RuntimeError only when no sweep within
      \* maxiter met the requested tolerance
-     Cl("C03.Sweep.Machine", fin /\ n >= 1 /\ Final(c) # "other", Explains(sws, A, 1, Final(c))),
+     Cl("C03.Sweep.Machine", fin /\ Final(c) # "other", Explains(sws, A, 1, Final(c))),
+     \* a budget that suffices suffices: when the same call with an unlimited budget returned after nref sweeps, a budget of
+     \* more than nref sweeps must return as well (one sweep of slack for the meaning of "within maxiter")
+     Cl("C03.MaxIter.Enough", c.has_nref /\ A.maxiter > c.nref, Final(c) # "noconv"),
      Cl("note.C03.ReturnedAtFirstConverged", fin /\ n >= 1 /\ Final(c) = "returned", AtFirstConverged(sws, A)),
-     Cl("C03.Sweep.Chain", fin,
+     \* (the hand-over of an undamped Jacobi iteration: how the code iterates today - a note, not part of the statement)
+     Cl("note.C03.Sweep.Chain", fin,
         \A j \in 1..(n - 1) : sws[j + 1].v0 = sws[j].v1 /\ sws[j + 1].i0 = sws[j].i1),
      \* what is handed back is an iterate of the LAST (converged) sweep - the one it started from or the one it produced -,
      \* and the table shows those very vectors
@@ -82,8 +88,8 @@ CaseClauses(c) ==
      Cl("C03.MaxIter", c.end.kind = "return", n <= A.maxiter)
   >>
 
-AllClauseNames == {"C03.NoNaN", "C03.ExcClass", "C03.Terminates", "C03.Sweep.Machine", "C03.Sweep.Chain",
-                   "C03.Returned.IsIterate", "C03.MaxIter", "note.C03.ReturnedAtFirstConverged", "events"}
+AllClauseNames == {"C03.NoNaN", "C03.ExcClass", "C03.Terminates", "C03.Sweep.Machine", "note.C03.Sweep.Chain",
+                   "C03.Returned.IsIterate", "C03.MaxIter", "C03.MaxIter.Enough", "note.C03.ReturnedAtFirstConverged", "events"}
 
 RECURSIVE SetToSeq(_)
 SetToSeq(X) == IF X = {} THEN <<>> ELSE LET x == CHOOSE x \in X : TRUE IN <<x>> \o SetToSeq(X \ {x})
